@@ -40,3 +40,26 @@ package builtinfunctions
 //@ func getStringToBoolFunction$1
 //@ func getReadFileFunction$1
 //@ func getGetEnvVarFunction$1
+//
+// The result type of bindConstants(list[T], C) is derived by HandleTypeSchemaCombine: a list of
+// objects {item: T, constant: C}. The SDK constructors are opaque; the contract pins which type goes
+// into which property and how the pieces are nested.
+//@ func schemaName
+//@   opt modular assumed
+//@   modifies nothing
+//@ func HandleTypeSchemaCombine
+//@   requires forall i int :: 0 <= i && i < len(inputType) ==> inputType[i] != nil
+//@   requires [list-schemas-are-well-formed] forall i int :: 0 <= i && i < len(inputType) && typeis(inputType[i], *schema.ListSchema) ==> \
+//@        inputType[i].(*schema.ListSchema) != nil && inputType[i].(*schema.ListSchema).ItemsValue != nil
+//@   ensures [type-or-error] (result1 == nil) != (result == nil)
+//@   ensures [two-argument-types-the-first-a-list] result1 == nil ==> len(inputType) == 2 && typeis(inputType[0], *schema.ListSchema)
+//@   ensures [item-property-has-the-element-type-of-the-list] result1 == nil ==> called(schema.NewPropertySchema, 1) && \
+//@        callarg(schema.NewPropertySchema, 1, 0) == inputType[0].(*schema.ListSchema).ItemsValue
+//@   ensures [constant-property-has-the-type-of-the-constant] result1 == nil ==> called(schema.NewPropertySchema, 2) && \
+//@        callarg(schema.NewPropertySchema, 2, 0) == inputType[1]
+//@   ensures [the-object-has-exactly-the-two-properties] result1 == nil ==> \
+//@        callarg(schema.NewUnenforcedIDObjectSchema, 1, 1)["item"] == callres(schema.NewPropertySchema, 1, 0) && \
+//@        callarg(schema.NewUnenforcedIDObjectSchema, 1, 1)["constant"] == callres(schema.NewPropertySchema, 2, 0) && \
+//@        (forall k string :: indom(callarg(schema.NewUnenforcedIDObjectSchema, 1, 1), k) ==> k == "item" || k == "constant")
+//@   ensures [the-result-is-the-list-of-those-objects] result1 == nil ==> any(callarg(schema.NewListSchema, 1, 0)) == any(callres(schema.NewUnenforcedIDObjectSchema, 1, 0)) && \
+//@        result == any(callres(schema.NewListSchema, 1, 0))
